@@ -15,7 +15,7 @@ RULE = ('decks with 1–4 material cards, each used by 1–2 cells: Z from 1 to 
         '(get_material_composition on a deck file read by the real parser … writeT4Composition) against the Lean model '
         '(Model/Composition.lean) on 1–4 cards (30 % with one malformed card: dangling ZAID, mixed signs, ZAIDs that are '
         'too short / Z = 0 / Z > 118 / contain letters, a repeated card number, bare signs and malformed fractions) and '
-        '1–6 cells (live or not, any material, 16 density spellings incl. ±0): the exact text of every line (amounts of '
+        '1–6 cells (live or not, any material, 16 density spellings incl. ±0): the words of every line (amounts of '
         'POINT_WISE compositions masked) or the class of the exception. Distinct = distinct material cards.')
 NOT_PROVED = ["the theorems are about the composition models (compExpected, rescale, Model/Composition); that the code emits exactly "
               "the model's lines is the correspondence (cards / rescale / table / compmodel streams), not a theorem; floating-point rounding "
@@ -182,7 +182,7 @@ def compmodel_case(seed, rng, ctx):
                 pw = ws[0] == 'POINT_WISE' and ws[2] != 'm0'
             elif pw and len(ws) == 2:
                 ln = ln[:ln.rindex(' ') + 1] + '*'
-            out.append(ln)
+            out.append(' '.join(ln.split()))       # TRIPOLI-4 input is free-format: the amount of blank space is immaterial
         code = 'ok ' + ' '.join(hx(ln) for ln in out)
     except Exception as ex:  # noqa
         code = 'ok error ' + type(ex).__name__
@@ -190,6 +190,9 @@ def compmodel_case(seed, rng, ctx):
         ' '.join('(m %d %s)' % (k, ' '.join(hx(t) for t in toks)) for k, toks in cards),
         ' '.join('(c %d %d %s)' % (1 if lv else 0, m, hx(d)) for lv, m, d in spec_cells))
     model = ctx['drv'].ask('compmodel ' + hx(req))
+    if model.startswith('ok ') and not model.startswith('ok error'):
+        from ..lean import unhx
+        model = 'ok ' + ' '.join(hx(' '.join(unhx(t).split())) for t in model.split()[1:])
     key = h(req)
     fails = []
     if model != code:
